@@ -12,7 +12,7 @@ PGAMMAS = [0.3, 0.5, 0.7, 0.8]
 @st.composite
 def pomdp_specs(draw, min_states=2, max_states=4, max_actions=3, max_obs=3, revealing=False,
                 gammas=None, schemes=("int", "str"), absorbing_kinds=("n", "n", "n", "n", "abs", "imp"),
-                flavour="discounted", reward_lo=-3, reward_hi=3, zero_obs=True):
+                flavour="discounted", reward_lo=-3, reward_hi=3, zero_obs=True, extreme=False):
     spec = draw(mdp_specs(flavour, min_states=min_states, max_states=max_states, max_actions=max_actions,
                           schemes=schemes, allow_explicit=False, uniform_actions=True,
                           gammas=gammas or PGAMMAS, absorbing_kinds=absorbing_kinds,
@@ -32,6 +32,17 @@ def pomdp_specs(draw, min_states=2, max_states=4, max_actions=3, max_obs=3, reve
                     ws[draw(st.integers(0, k - 1))] = 1
                 row.append([[o, w] for o, w in enumerate(ws)])
             obs.append(row)
+    if extreme and not revealing and draw(st.integers(0, 2)) == 0:
+        # extreme ratios: one observation / transition weight dwarfs the others (probabilities ~1e-9)
+        a, ns = draw(st.integers(0, m - 1)), draw(st.integers(0, n - 1))
+        row = obs[a][ns]
+        j = draw(st.integers(0, len(row) - 1))
+        row[j][1] = row[j][1] * 10 ** draw(st.sampled_from([6, 9, 12])) if row[j][1] > 0 else 10 ** 9
+        s0 = draw(st.integers(0, n - 1))
+        outs = spec["trans"][s0][draw(st.integers(0, len(spec["trans"][s0]) - 1))][1]
+        if len(outs) > 1 and not spec["absorbing"][s0]:
+            outs[0][1] = max(outs[0][1], 1) * 10 ** draw(st.sampled_from([6, 9]))
+        spec["extreme"] = True
     oscheme = draw(st.sampled_from(["int", "str"]))
     spec["k"] = k
     spec["obs"] = obs
@@ -41,7 +52,13 @@ def pomdp_specs(draw, min_states=2, max_states=4, max_actions=3, max_obs=3, reve
 
 @st.composite
 def belief_weights(draw, n):
-    kind = draw(st.sampled_from(["vertex", "edge", "interior", "any"]))
+    kind = draw(st.sampled_from(["vertex", "edge", "interior", "any", "skewed"]))
+    if kind == "skewed" and n >= 2:
+        w = [draw(st.integers(0, 2)) for _ in range(n)]
+        w[draw(st.integers(0, n - 1))] = 10 ** draw(st.sampled_from([6, 10, 12]))
+        if sum(1 for x in w if x > 0) < 2:
+            w[(w.index(max(w)) + 1) % n] = 1
+        return w
     if kind == "vertex":
         i = draw(st.integers(0, n - 1))
         return [1 if j == i else 0 for j in range(n)]
